@@ -363,4 +363,97 @@ theorem PsCostStepsD.pathLen_le {d : σ → σ → κ} {cm : σ → σ → Bool}
 
 end Add
 
+/-! ## metric setting: triangle inequality instead of the cost test (drops `pos1 + 1 < size` from the round-1 family) -/
+
+section Tri
+variable {κ : Type} [AddCommMonoid κ] [PartialOrder κ] [IsOrderedAddMonoid κ]
+
+/-- second sample SNAPPED to any vertex `pos1 < size` (the LAST one included): the splice does not lengthen the path if the chord
+`s0 → s1` is not longer than the chain `s0, states[pos0+1 .. pos1-1], s1` it replaces -/
+theorem psSplice_pathLen_le_snapped_of_chord (d : σ → σ → κ)
+    (st : List σ) (pos0 pos1 : Nat) (idx0 : Bool) (s0 s1 : σ)
+    (h01 : pos0 < pos1) (hp1 : pos1 < st.length) (hs : psSkip pos0 idx0 pos1 true = false)
+    (hc0 : idx0 = false → d (st[pos0]'(by omega)) s0 + d s0 (st[pos0 + 1]'(by omega)) =
+      d (st[pos0]'(by omega)) (st[pos0 + 1]'(by omega)))
+    (hv0 : idx0 = true → s0 = st[pos0]'(by omega)) (hv1 : s1 = st[pos1]'hp1)
+    (hch : d s0 s1 ≤ pathLen d (s0 :: ((st.take pos1).drop (pos0 + 1) ++ [s1])))
+    {out : List σ} (h : psSplice st pos0 idx0 s0 pos1 true s1 = some out) :
+    pathLen d out ≤ pathLen d st := by
+  have hT : st.take (pos0 + 1) = st.take pos0 ++ [st[pos0]'(by omega)] :=
+    List.take_succ_eq_append_getElem (by omega)
+  have hD : st.drop pos1 = st[pos1]'hp1 :: st.drop (pos1 + 1) := List.drop_eq_getElem_cons hp1
+  have hst : st = st.take (pos0 + 1) ++ ((st.take pos1).drop (pos0 + 1) ++ st.drop pos1) := by
+    rw [← List.append_assoc, take_append_mid st (pos0 + 1) pos1 (by omega), List.take_append_drop]
+  have hm : pos0 + 1 < pos1 → ((st.take pos1).drop (pos0 + 1)).head? = some (st[pos0 + 1]'(by omega)) := by
+    intro hlt
+    rw [List.head?_drop, List.getElem?_take_of_lt hlt]
+    exact List.getElem?_eq_getElem (by omega)
+  generalize hMid : (st.take pos1).drop (pos0 + 1) = Mid at hst hch hm
+  generalize ha' : st[pos0]'(by omega) = a at hT hc0 hv0
+  generalize hb' : st[pos1]'hp1 = b at hD hv1
+  subst hv1
+  have key : ∀ X : List σ, pathLen d (a :: (X ++ [s1])) ≤ pathLen d (a :: (Mid ++ [s1])) →
+      pathLen d (st.take (pos0 + 1) ++ X ++ st.drop pos1) ≤ pathLen d st := by
+    intro X hX
+    conv_rhs => rw [hst]
+    rw [hT, hD]
+    simp only [List.append_assoc, List.cons_append, List.nil_append]
+    rw [pathLen_append_cons d (st.take pos0) a (X ++ s1 :: st.drop (pos1 + 1)),
+      pathLen_append_cons d (st.take pos0) a (Mid ++ s1 :: st.drop (pos1 + 1)),
+      pathLen_cons_append d X a s1, pathLen_cons_append d Mid a s1]
+    exact add_le_add (le_refl _) (add_le_add hX (le_refl _))
+  cases idx0 with
+  | true =>
+    have e0 := hv0 rfl
+    subst e0
+    rw [psSplice_tt st pos0 pos1 _ _ (by omega) (by omega)] at h
+    obtain rfl := Option.some.inj h
+    have := key [] (by
+      simp only [List.nil_append]
+      have h1 : pathLen d [s0, s1] = d s0 s1 := by simp [pathLen]
+      rw [h1]
+      exact hch)
+    simpa using this
+  | false =>
+    have h02 : pos0 + 2 ≤ pos1 := by simp [psSkip] at hs; omega
+    rw [psSplice_ft st pos0 pos1 _ _ h02 (by omega)] at h
+    obtain rfl := Option.some.inj h
+    refine key [s0] ?_
+    have hm := hm (by omega)
+    cases Mid with
+    | nil => simp at hm
+    | cons m Mid' =>
+      simp only [List.head?_cons, Option.some.injEq] at hm
+      have hc := hc0 rfl
+      rw [← hm] at hc
+      simp only [List.cons_append, List.nil_append, pathLen] at hch ⊢
+      rw [← hc, add_assoc]
+      exact add_le_add (le_refl _) (by simpa [pathLen] using hch)
+
+/-- one executed splice of the whole routine in a METRIC setting (triangle inequality, interpolated states on geodesics): never
+longer — second sample inside a segment or snapped to any vertex, the last one included -/
+theorem PsCutStepD.pathLen_le_tri {d : σ → σ → κ} {cm : σ → σ → Bool} (tri : ∀ a b c, d a c ≤ d a b + d b c)
+    {st out : List σ} (h : PsCutStepD cm (fun a b s => d a s + d s b = d a b) st out) :
+    pathLen d out ≤ pathLen d st := by
+  cases h with
+  | mk pos0 pos1 idx0 idx1 s0 s1 _ h01 hs h0 h1 hcm h =>
+    obtain ⟨hp0, hv0, hc0⟩ := h0
+    obtain ⟨hp1, hv1, hc1⟩ := h1
+    cases idx1 with
+    | false =>
+      obtain ⟨hq1, hc1'⟩ := hc1 rfl
+      exact psSplice_pathLen_le d tri st pos0 pos1 idx0 false s0 s1 h01 hq1 hs (fun hi => (hc0 hi).2)
+        (fun _ => hc1') h
+    | true =>
+      exact psSplice_pathLen_le_snapped_of_chord d st pos0 pos1 idx0 s0 s1 h01 hp1 hs (fun hi => (hc0 hi).2)
+        hv0 (hv1 rfl) (dist_le_pathLen d tri _ s0 s1) h
+
+theorem PsCutStepsD.pathLen_le_tri {d : σ → σ → κ} {cm : σ → σ → Bool} (tri : ∀ a b c, d a c ≤ d a b + d b c)
+    {st out : List σ} (h : PsCutStepsD cm (fun a b s => d a s + d s b = d a b) st out) :
+    pathLen d out ≤ pathLen d st := by
+  induction h with
+  | refl => exact le_refl _
+  | head s _ ih => exact le_trans ih (s.pathLen_le_tri tri)
+
+end Tri
 end OmplModel.PathOps
